@@ -14,6 +14,7 @@ import (
 	"errors"
 	"fmt"
 	"math/rand"
+	"sort"
 	"strconv"
 	"strings"
 	"sync"
@@ -92,6 +93,10 @@ type wProgram struct {
 	Seq     bool           `json:"seq"`     // uses the hook runtime (forced teardown window): run alone
 	Windows int            `json:"windows"` // forced windows in which the old teardown goroutine was really parked
 	Snaps   int            `json:"snaps"`   // handler goroutines really held before their copy of r.middlewares until the snap op
+	Plug    []int          `json:"plug"`    // plugins Run called, in order
+	PlugRan bool           `json:"plugran"` // Run was called
+	PlugOK  bool           `json:"plugok"`  // ... and no plugin returned an error
+	Views   [][]string     `json:"views"`   // what each Handlers() call reported (sorted)
 }
 
 func (c *wCopy) rec(ev ...interface{}) {
@@ -588,6 +593,7 @@ func wRunProgram(p *wProgram, in *script.Interner) {
 	handles := map[string]*message.Handler{}
 	snapRules := map[string]*hookrt.ParkRule{}
 	snapKeys := map[string]string{}
+	runReturned := false
 	ctx, cancel := context.WithCancel(context.Background())
 	defer cancel()
 	running := false
@@ -680,6 +686,7 @@ func wRunProgram(p *wProgram, in *script.Interner) {
 			}
 			if !running {
 				running = true
+				p.PlugRan = true
 				go func() {
 					defer func() {
 						if v := recover(); v != nil {
@@ -691,7 +698,15 @@ func wRunProgram(p *wProgram, in *script.Interner) {
 				}()
 				select {
 				case <-router.Running():
+					p.PlugOK = true
+					if o.Fail {
+						r.anomaly("Run is running although a plugin returns an error")
+					}
 				case err := <-runErr:
+					if o.Fail && err != nil {
+						runReturned = true // a plugin returned an error: Run is over, isRunning stays set
+						break
+					}
 					r.anomaly("Run returned early: %v", err)
 					return
 				case <-time.After(wPatience):
@@ -711,6 +726,38 @@ func wRunProgram(p *wProgram, in *script.Interner) {
 					}
 				}()
 			}
+		case "addplugin":
+			var ps []message.RouterPlugin
+			for _, g := range group {
+				g := g
+				ps = append(ps, func(rt *message.Router) error {
+					// plugins run before any handler: nobody has subscribed yet
+					nsubs := 0
+					for _, f := range r.fans {
+						f.mu.Lock()
+						nsubs += len(f.subs)
+						f.mu.Unlock()
+					}
+					if nsubs != 0 || rt != router {
+						r.anomaly("plugin %d ran after %d Subscribe calls / on another router", g.ID, nsubs)
+					}
+					r.mu.Lock()
+					p.Plug = append(p.Plug, g.ID)
+					r.mu.Unlock()
+					if g.Fails > 0 {
+						return fmt.Errorf("scripted failure of plugin %d", g.ID)
+					}
+					return nil
+				})
+			}
+			router.AddPlugin(ps...)
+		case "view":
+			names := []string{}
+			for nm := range router.Handlers() {
+				names = append(names, nm)
+			}
+			sort.Strings(names)
+			p.Views = append(p.Views, names)
 		case "snap":
 			// let handler o.Name's goroutine take its copy of r.middlewares now, and wait until it has
 			from := 0
@@ -809,10 +856,12 @@ func wRunProgram(p *wProgram, in *script.Interner) {
 		if err := router.Close(); err != nil {
 			r.anomaly("router close: %v", err)
 		}
-		select {
-		case <-runErr:
-		case <-time.After(wPatience):
-			r.anomaly("Run did not return after Close")
+		if !runReturned {
+			select {
+			case <-runErr:
+			case <-time.After(wPatience):
+				r.anomaly("Run did not return after Close")
+			}
 		}
 	}
 }
@@ -932,20 +981,21 @@ var wTopics = []string{"t1", "t2", "t3", ""}
 var wNames = []string{"h1", "h2", "h3", "h4", "h5", "h11", ""}
 
 type wGen struct {
-	rng     *rand.Rand
-	p       *wProgram
-	added   []*wHandler // accepted handlers
-	started map[string]bool
-	nextID  int
-	grp     int
-	nDel    int
-	pubDels []int // delivery numbers likely to have published something
-	running bool
-	faulty  bool   // decorators registered now may have failing constructors
-	decs    []*wOp // decorator registrations, in order (pub and sub), with the remaining failures in budget
-	budget  map[int]int
-	stress  int
-	libPub  bool // the library's MessageTransformPublisherDecorator may be registered (then no nil publishers)
+	rng         *rand.Rand
+	p           *wProgram
+	added       []*wHandler // accepted handlers
+	started     map[string]bool
+	nextID      int
+	grp         int
+	nDel        int
+	pubDels     []int // delivery numbers likely to have published something
+	running     bool
+	faulty      bool   // decorators registered now may have failing constructors
+	decs        []*wOp // decorator registrations, in order (pub and sub), with the remaining failures in budget
+	budget      map[int]int
+	stress      int
+	pluginFails bool // a registered plugin returns an error: the first start (Run) fails and starts nobody
+	libPub      bool // the library's MessageTransformPublisherDecorator may be registered (then no nil publishers)
 }
 
 func (g *wGen) pick(n int) int { return g.rng.Intn(n) }
@@ -1073,6 +1123,23 @@ func (g *wGen) unstartedHandlers() []*wHandler {
 // start (retried while a decorator constructor fails) + one warm-up delivery per newly started handler
 // (so that its goroutine has taken its middleware snapshot before the program goes on registering)
 func (g *wGen) start() {
+	if !g.running && g.pluginFails {
+		// Run: a plugin returns an error, RunHandlers is not called; isRunning stays set, the next start is a RunHandlers
+		g.op(&wOp{K: "start", Fail: true})
+		g.running = true
+		if g.pick(2) == 0 {
+			g.op(&wOp{K: "view"})
+		}
+		for _, h := range g.unstartedHandlers() {
+			if g.pick(2) == 0 {
+				g.pushDelivery(g.delivery(h.Sub, h.SubTopic), 0) // nobody was started
+			}
+		}
+		if g.pick(3) == 0 {
+			g.nextID++
+			g.op(&wOp{K: "addplugin", ID: g.nextID}) // too late: never called
+		}
+	}
 	waiting := g.unstartedHandlers()
 	for len(waiting) > 0 {
 		f := g.nextFailing()
@@ -1296,6 +1363,23 @@ func genRandom(rng *rand.Rand, maxHandlers, maxRegs int, stress int) *wProgram {
 			rs = regs - (phases-1)*(regs/phases)
 		}
 		g.faulty = false
+		if ph == 0 && g.pick(3) == 0 {
+			n := 1 + g.pick(3)
+			grp := 0
+			if n > 1 && g.pick(2) == 0 {
+				g.grp++
+				grp = g.grp
+			}
+			for k := 0; k < n; k++ {
+				g.nextID++
+				o := &wOp{K: "addplugin", ID: g.nextID, Grp: grp}
+				if g.pick(5) == 0 {
+					o.Fails = 1
+					g.pluginFails = true
+				}
+				g.op(o)
+			}
+		}
 		if ph > 0 {
 			if g.pick(3) == 0 || stress == 1 {
 				g.stopAndReadd()
@@ -1330,7 +1414,10 @@ func genRandom(rng *rand.Rand, maxHandlers, maxRegs int, stress int) *wProgram {
 		if ph > 0 && g.pick(3) == 0 {
 			g.deliveries() // handlers added while running, RunHandlers not called yet: they must not receive anything
 		}
-		if stress == 3 && len(g.unstartedHandlers()) > 0 && g.nextFailing() == nil {
+		if g.pick(4) == 0 {
+			g.op(&wOp{K: "view"})
+		}
+		if stress == 3 && len(g.unstartedHandlers()) > 0 && g.nextFailing() == nil && !(g.pluginFails && !g.running) {
 			g.startAsync()
 		} else {
 			g.start()
